@@ -717,4 +717,48 @@ mod branch_hosts {
     #[kani::proof] #[kani::unwind(8)] fn str_eq_whole_equal() { check_eq("a\u{e9}", "a\u{e9}", true) }
     #[kani::proof] #[kani::unwind(8)] fn str_eq_whole_prefix() { check_eq("a\u{e9}", "a\u{e9}b", false) }
     #[kani::proof] #[kani::unwind(8)] fn str_eq_whole_normalisation() { check_eq("\u{e9}", "e\u{301}", false) }
+
+    /// whole arg_fold, BOUNDED (0 and 2 command-line arguments): a lazy RIGHT fold in argument order -- no arguments -> when_empty (1st)
+    /// forced; otherwise when_item (2nd) applied to the FIRST argument and to a thunk of the fold over the rest
+    fn fold_head(c: &Computation) -> Option<(i64, Option<u8>, &Computation)> {
+        // App(App(Force(marker), String(arg)), Thunk(rest))
+        match c {
+            | Computation::VApp(App(inner, tail)) => match (inner.as_ref(), tail.as_ref()) {
+                | (Computation::VApp(App(f, a)), Value::Thunk(Thunk(rest))) => match (forced(f.as_ref()), a.as_ref()) {
+                    | (Some(m), Value::SemValue(SemValue::Literal(Literal::String(s)))) => Some((m, s.as_str().as_bytes().first().copied(), rest.as_ref())),
+                    | _ => None,
+                },
+                | _ => None,
+            },
+            | _ => None,
+        }
+    }
+    #[kani::proof] #[kani::unwind(4)]
+    fn arg_fold_whole_empty() {
+        let args = [marker(10), marker(11)];
+        let (mut input, mut output, mut host) = (std::io::empty(), std::io::sink(), HostRuntime);
+        let r = arg_fold(&args, &mut input, &mut output, &[], &mut host);
+        let got = selected(&r);
+        core::mem::forget(r); core::mem::forget(args);
+        assert!(got == Some((10, 0)));
+    }
+    #[kani::proof] #[kani::unwind(4)]
+    fn arg_fold_whole_two() {
+        let args = [marker(10), marker(11)];
+        let argv = [String::from("x"), String::from("y")];
+        let (mut input, mut output, mut host) = (std::io::empty(), std::io::sink(), HostRuntime);
+        let r = arg_fold(&args, &mut input, &mut output, &argv, &mut host);
+        let ok = match &r {
+            | Ok(c) => match fold_head(c) {
+                | Some((11, Some(b'x'), rest)) => match fold_head(rest) {
+                    | Some((11, Some(b'y'), last)) => forced(last) == Some(10),
+                    | _ => false,
+                },
+                | _ => false,
+            },
+            | Err(_) => false,
+        };
+        core::mem::forget(r); core::mem::forget(args); core::mem::forget(argv);
+        assert!(ok);
+    }
 }
